@@ -156,3 +156,31 @@ package engine
 //@   invariant@3 runner: runner != nil && candNow(runner) && $notifStamp[runner] == $stamp && active(runner)
 //@   invariant@3 first: $i == 0 ==> runner == runnable[0]
 //@   invariant@3 maximal: forall k int :: 0 <= k && k < $i ==> runnable[k].Salience <= runner.Salience
+
+// ---------------------------------------------------------------------------------------------------------
+// FetchMatchingRules (C11, C08): exactly the non-removed rules whose condition is true, once each, by
+// non-increasing salience; no action is executed (frame: $runExec, $loc and every fact location are not in modifies).
+// ---------------------------------------------------------------------------------------------------------
+//@ func (g *GruleEngine) FetchMatchingRules(dataCtx, knowledge) (res, err)
+//@   serves C11 C08
+//@   requires g != nil
+//@   requires knowledge != nil ==> knowledge.WorkingMemory != nil && KBInv(knowledge) && WMInv(knowledge.WorkingMemory)
+//@   requires ghostWF()
+//@   nopanic
+//@   modifies @memo, @ctxghost, alloc, ast.BuiltInFunctions.*, ast.KnowledgeBase.DataContext, ast.RuleEntry.Retracted, $stamp, $evalStamp, $evalCnt, $evalCand, $evalFailed, $addFailed, $sinceExec
+//@   ghost_entry $stamp = $stamp + 1
+//@   ghost_entry $evalFailed = false
+//@   ensures[C11] members: err == nil ==> (forall k int :: 0 <= k && k < len(res) ==> res[k] != nil && candNow(res[k]) && !res[k].Deleted)
+//@   ensures[C11] once: err == nil ==> (forall a int, b int :: 0 <= a && a < b && b < len(res) ==> res[a] != res[b])
+//@   ensures[C11] complete: err == nil && knowledge != nil ==> (forall re *ast.RuleEntry :: candNow(re) ==> (exists k int :: 0 <= k && k < len(res) && res[k] == re))
+//@   ensures[C11] allevaluated: err == nil && knowledge != nil ==> (forall k string :: has(knowledge.RuleEntries, k) && !RE(knowledge, k).Deleted ==> $evalStamp[RE(knowledge, k)] == $stamp && $evalCnt[RE(knowledge, k)] == 1)
+//@   ensures[C11] sorted: err == nil ==> (forall a int, b int :: 0 <= a && a < b && b < len(res) ==> res[a].Salience >= res[b].Salience)
+//@   ensures[C11] evalerr: $evalFailed && g.ReturnErrOnFailedRuleEvaluation ==> err != nil && len(res) == 0
+//@   invariant@1[C08] fresh: $i == 0 ==> memoClear(knowledge.WorkingMemory) && noneRetracted(knowledge) && knowledge.DataContext == dataCtx
+//@   invariant@1 runnable: forall k int :: 0 <= k && k < len(runnable) ==> runnable[k] != nil && candNow(runnable[k]) && !runnable[k].Deleted
+//@   invariant@1 distinct: forall a int, b int :: 0 <= a && a < b && b < len(runnable) ==> runnable[a] != runnable[b]
+//@   invariant@1 allcands: forall re *ast.RuleEntry :: candNow(re) ==> (exists k int :: 0 <= k && k < len(runnable) && runnable[k] == re)
+//@   invariant@1 done: forall j int :: 0 <= j && j < $i && !RE(knowledge, $keys[j]).Deleted ==> $evalStamp[RE(knowledge, $keys[j])] == $stamp && $evalCnt[RE(knowledge, $keys[j])] == 1
+//@   invariant@1 todo: forall j int :: $i <= j && j < $n ==> $evalStamp[RE(knowledge, $keys[j])] != $stamp
+//@   invariant@1 ghostwf: forall re Ref :: $evalStamp[re] <= $stamp
+//@   invariant@1 nofail: !($evalFailed && g.ReturnErrOnFailedRuleEvaluation)
